@@ -446,4 +446,89 @@ Proof.
   - repeat split.
 Qed.
 
+(* ================================================================================================= *)
+(* 5. the streaming writer (Archive::write_file)                                                       *)
+(* ================================================================================================= *)
+Notation stream_file_chunks := (stream_file_chunks E compress).
+
+Lemma seg_fdat_all rest ds : forall a,
+  parse_normal_loop (map (mk FDAT) ds ++ rest) a = parse_normal_loop rest (upd_data ds a).
+Proof.
+  induction ds as [|d ds IH]; intros a; [rewrite upd_data_nil; reflexivity|].
+  cbn [map app parse_normal_loop]. tysimp. cbn [cdata mk]. rewrite IH. f_equal.
+  unfold upd_data. cbn [k_info k_phsf k_extra k_data k_csize k_size k_c k_m k_a k_perm k_x].
+  rewrite <- app_assoc, sum_len_cons, N.add_assoc. reflexivity.
+Qed.
+
+(* what the reader gets for a streamed file: no fSIZ (raw size unknown), empty writes kept as empty chunks *)
+Definition streamed_entry (cfg : config) (ctx : cctx) (sp : spec) (wcuts : list bytes) : normal_entry :=
+  let data := iv_part cfg ctx ++ data_pieces cfg ctx wcuts in
+  {| n_hdr := {| f_major := 0; f_minor := 0; f_kind := KFile; f_comp := g_comp cfg;
+                 f_enc := g_enc cfg; f_mode := g_mode cfg; f_name := sp_name sp |};
+     n_phsf := phsf_part cfg ctx; n_extra := []; n_data := data;
+     n_meta := {| m_raw_size := None; m_compressed := sum_len data;
+                  m_ctime := sp_ctime sp; m_mtime := sp_mtime sp; m_atime := sp_atime sp; m_perm := sp_perm sp |};
+     n_xattrs := [] |}.
+
+Lemma parse_stream_file cfg ctx pw sp wcuts : wf_spec sp -> wf_ctx ctx pw ->
+  parse_normal (stream_file_chunks cfg ctx sp wcuts) = Ok (streamed_entry cfg ctx sp wcuts).
+Proof.
+  intros (S1 & S2 & S3 & S4 & S5 & S6 & S7 & S8 & S9) (_ & _ & Hu).
+  unfold Pipeline.stream_file_chunks, parse_normal, streamed_entry, chunk_sink. cbv zeta. cbn [app]. tysimp. cbn [negb].
+  rewrite seg_fhed by (apply fhed_inv; unfold wf_fhed; cbn; repeat split; (assumption || lia)).
+  rewrite seg_ctime by exact S4. rewrite seg_mtime by exact S5. rewrite seg_atime by exact S6.
+  rewrite seg_perm by exact S7.
+  rewrite seg_phsf by (unfold phsf_part; destruct (encrypted cfg); cbn [opt_all]; [exact Hu|exact I]).
+  rewrite seg_fdat_all, seg_fend. cbn [bind].
+  unfold phsf_part.
+  destruct (sp_ctime sp), (sp_mtime sp), (sp_atime sp), (sp_perm sp), (encrypted cfg);
+    cbn [opt_upd upd_info upd_phsf upd_data upd_c upd_m upd_a upd_perm
+         k_info k_phsf k_extra k_data k_csize k_size k_c k_m k_a k_perm k_x nacc0 app f_major f_minor];
+    change (0 =? 0) with true; cbn [andb negb]; rewrite N.add_0_l; reflexivity.
+Qed.
+
+Theorem write_file_roundtrip cfg ctx pw sp wcuts :
+  wf_spec sp -> wf_ctx ctx pw -> concat wcuts = sp_content sp ->
+  exists e, parse_normal (stream_file_chunks cfg ctx sp wcuts) = Ok e /\
+    m_raw_size (n_meta e) = None /\
+    f_name (n_hdr e) = sp_name sp /\ f_kind (n_hdr e) = KFile /\
+    m_ctime (n_meta e) = sp_ctime sp /\ m_mtime (n_meta e) = sp_mtime sp /\ m_atime (n_meta e) = sp_atime sp /\
+    m_perm (n_meta e) = sp_perm sp /\
+    m_compressed (n_meta e) = fold_left N.add (map len (n_data e)) 0 /\
+    forall rbufs, Forall (fun n => 0 < n) rbufs -> covers cfg wcuts rbufs ->
+      decode_normal e pw rbufs = Ok (sp_content sp).
+Proof.
+  intros Hs Hctx Hc. exists (streamed_entry cfg ctx sp wcuts).
+  split; [apply (parse_stream_file cfg ctx pw); assumption|]. repeat split.
+  intros rbufs Hp Hcov. unfold Pipeline.decode_normal, streamed_entry. cbv zeta.
+  cbn [n_hdr n_phsf n_data f_comp f_enc f_mode].
+  rewrite (stream_roundtrip cfg ctx pw wcuts); try assumption; [rewrite Hc; reflexivity|reflexivity].
+Qed.
+
+(* the streamed file inside an archive *)
+Lemma stream_file_wf_entry cfg ctx sp wcuts :
+  Forall wf_chunk (stream_file_chunks cfg ctx sp wcuts) -> wf_entry (stream_file_chunks cfg ctx sp wcuts).
+Proof.
+  intros Hw. unfold Pipeline.stream_file_chunks in *.
+  eexists _, (mk FEND []). split; [rewrite !app_assoc; reflexivity|]. split; [reflexivity|].
+  split; [exact Hw|].
+  repeat (apply Forall_app; split);
+    try (match goal with |- Forall _ (opt_chunk _ _ ?o) => destruct o; cbn [opt_chunk]; repeat constructor end).
+  - repeat constructor.
+  - apply Forall_forall. intros c Hc. apply in_map_iff in Hc. destruct Hc as (d & <- & _). reflexivity.
+Qed.
+
+Theorem write_file_archive_roundtrip cfg ctx pw sp wcuts :
+  wf_spec sp -> wf_ctx ctx pw -> Forall wf_chunk (stream_file_chunks cfg ctx sp wcuts) ->
+  read_archive (write_raw_archive 0 [stream_file_chunks cfg ctx sp wcuts]) = Ok [RNormal (streamed_entry cfg ctx sp wcuts)].
+Proof.
+  intros Hs Hctx Hw. unfold read_archive, entries.
+  rewrite read_written; [|lia|constructor; [apply stream_file_wf_entry; exact Hw|constructor]].
+  cbn [bind parse_all]. unfold parse_entry.
+  assert (Hhd : exists c tl, stream_file_chunks cfg ctx sp wcuts = c :: tl /\ ty_is c SHED = false /\ ty_is c FHED = true).
+  { unfold Pipeline.stream_file_chunks. cbn [app]. eexists _, _. split; [reflexivity|]. split; reflexivity. }
+  destruct Hhd as (c & tl & Etl & T1 & T2). rewrite Etl, T1, T2, <- Etl.
+  rewrite (parse_stream_file cfg ctx pw) by assumption. reflexivity.
+Qed.
+
 End PipelineFacts.
